@@ -53,8 +53,29 @@ def make_project(rng, k, with_include=True):
             if lines[i].strip() and rng.chance(1, 4):
                 lines[i] = "/* naïve – ünïcödé µ */ " + lines[i]
         main = "\n".join(lines)
+    curve = "BN254"
+    if rng.chance(1, 2):
+        # a main component (since 1121aa8 its instantiation is analysed: one more batch after the definitions), sometimes one the
+        # curve-dependent passes flag, sometimes in the included-only file (nothing about it may be displayed)
+        kind = rng.below(4)
+        if kind == 0:
+            extra = "template Num2Bits(n) { signal input in; signal output out[n]; for (var i = 0; i < n; i++) { out[i] <-- (in >> i) & 1; out[i] * (out[i] - 1) === 0; } }\ncomponent main = Num2Bits(%d);\n" % rng.choice([8, 253, 254, 300])
+        elif kind == 1:
+            curve = rng.choice(["BLS12_381", "GOLDILOCKS", "BN254"])
+            extra = "template Sign() { signal input in[254]; signal output sign; sign <== in[0]; }\ncomponent main {public [in]} = Sign();\n"
+        elif kind == 2:
+            extra = "template Top(n) { signal input a; signal output b; b <== a * n; }\ncomponent main = Top(%s);\n" % rng.choice(["3", "2 + 1", "Top()(1)", "(1, 2)", "x"])
+        else:
+            curve = rng.choice(["BLS12_381", "BN254"])
+            extra = "template Poseidon(n) { signal input a[n]; signal output b; b <== a[0]; }\ncomponent main = Poseidon(2);\n"
+        # the generated project ends with its own main component (nothing may follow it): replaced
+        main = "\n".join(l for l in main.split("\n") if "component main" not in l)
+        if "lib/inc.circom" in files and rng.chance(1, 3):
+            files["lib/inc.circom"] += extra
+        else:
+            main += "\n" + extra
     files["main.circom"] = main
-    return {"files": files, "inputs": inputs, "libs": [], "stats": stats}
+    return {"files": files, "inputs": inputs, "libs": [], "stats": stats, "curve": curve}
 
 
 def materialize(wd, tag, proj):
@@ -88,6 +109,15 @@ def rtoks(rs):
     return ";".join(rtok(r) for r in rs) or "-"
 
 
+MAIN = "<main component>"
+
+
+def split_main(batches):
+    """(the batches of the definitions, the reports of the main component or None)"""
+    ms = [b for b in batches if b[0] == "main"]
+    return [b for b in batches if b[0] != "main"], (ms[0][2] if ms else None)
+
+
 def real_batches(reply):
     """events -> (parse batch, [(kind, name, [reports])]) in the order the real runner produced them"""
     parse, batches, cur = [], [], None
@@ -100,6 +130,9 @@ def real_batches(reply):
             m = re.match(r"analyzing (template|function) '(.*)'$", e["msg"])
             if m:
                 cur = (m.group(1), m.group(2), [])
+                batches.append(cur)
+            elif e["msg"] == "analyzing main component":
+                cur = ("main", MAIN, [])
                 batches.append(cur)
         else:
             if not seen_done:
@@ -114,6 +147,8 @@ def model_line(iso, order, level, allow):
     for d in iso["defs"]:
         defs.append("%s:%d:%s:%s:%s" % (d["name"], 1 if d["ok"] else 0, rtoks(d["gen"]),
                                         ",".join(d["lookups"]) or "-", rtoks(d["passes"])))
+    if iso.get("main") is not None:
+        defs.append("main=" + rtoks(iso["main"]))
     return "runner %d %s %s %s %s" % (level, ",".join(allow) or "-", ",".join(order) or "-", rtoks(iso["parse"]), " ".join(defs))
 
 
